@@ -15,12 +15,15 @@ RULE = ("cases = naive simulations: 1..4 pools of any size, DAG and generated wo
 ASSUMPTIONS = ["pool free amounts are read at the scheduler boundary right before the round"]
 NSHARDS = {"quick": 16, "thorough": 16}
 N = {"quick": 60, "thorough": 6000}
-REQUIRE = {"scale:run_with_more_than_256_failed_pipelines": 1, "naive_assignments": 3000, "multi_pool_rounds": 200, "rounds_with_failed_pipelines": 300, "first_containers": 2000,
+REQUIRE = {"scale:run_with_more_than_100000_pipelines": 1, "scale:run_with_more_than_256_failed_pipelines": 1, "naive_assignments": 3000, "multi_pool_rounds": 200, "rounds_with_failed_pipelines": 300, "first_containers": 2000,
            "sim_runs:naive/multi": 200, "sim_runs:naive/single": 200}
 
 
 def cases(tier, seed, shard, nshards):
     rng = rng_for(ID, seed, shard)
+    if shard == 5:
+        # one run far beyond every bounded structure one would think of: > 100,000 pipelines known to one scheduler
+        yield _sim.scale_case(rng, "huge-queue")
     for i in range(N[tier]):
         yield _sim.random_sim_case(rng, small=rng.random() < 0.7, algos=("naive",), pools=rng.choice([1, 2, 3, 4]),
                                    mem_levels=[0.05, 0.3, 0.6, 0.9, 1.5], npipes=rng.choice([3, 8, 20]))
